@@ -32,7 +32,24 @@ FIXED = [
   'git::https://h/org/repo/%2Fテ/x.tf normalised to a package path containing "//" and parsed back as package + sub-path'),
 ]
 
+FIXED += [
+ ("C01", "sibling-with-dst-name-prefix", "fix: compare whole path components when checking that an entry stays inside dst",
+  'entry "../dst-evil/x" (or "a/../../dst-evil/y") was written into a sibling of dst whose name starts with dst\'s name'),
+ ("C04", "lexical-escape", "fix: compare whole path components when deciding whether a symlink target is inside the root",
+  'link "l -> ../dst-evil/x" was created by Unpack (and stored by Pack) although it leaves the root'),
+ ("C01", "content-overwritten-outside", "fix: do not follow a symlink that sits at an entry\'s own path when unpacking",
+  'link "m -> d/l/../secret" (with "d/l -> ..") followed by file entry "m" overwrote a file outside dst; dir entry at a link path chmod-ed the link target'),
+ ("C15", "empty-dir-missing", "fix: create directories for directory entries when unpacking",
+  'empty directory entries were never created by Unpack (also C02 round trip and C09 bundle archives)'),
+ ("C04", "lexical-escape", "fix: validate a symlink entry against the path where Unpack really creates it",
+  'entry "/l -> ../arena/p1/dst/y" was validated from "/" but created at dst/l, where it leads outside dst'),
+ ("C04", "absolute-target-accepted", "fix: refuse absolute symlink targets when unpacking unless they are allow-listed",
+  'a link entry with an absolute target pointing into dst was accepted although Unpack documents and the property requires refusal'),
+]
+
 OPEN = [
+ ("C04", "dotdot-after-symlink-component",
+  'a link whose target applies ".." after a component that is itself a symlink in dst (e.g. "d/l -> .." together with "m -> d/l/../secret", in either order) is accepted because targets are validated lexically; the operating system resolves m to a location outside dst. No entry can be written through such a link any more (see the fixed C01 entries), but the link itself remains'),
  # (property, key, what fails)
  ("C06", "edge-whitespace",
   'an address value whose printed form begins or ends with white space (e.g. ResolveRelativeSource("./g0\\t/cidr", "../") = "./g0\\t", or a registry sub-path ending in "\\n") is refused by ParseSource/ParseFinalSource ("must not have leading or trailing spaces"); only reachable with path segments that start or end with white space'),
